@@ -7,12 +7,19 @@ VERUS = {
     # changed comparison is a failed obligation instead of an unsupported construct):
     #   stored: mod1(val(x'), -val(x) | 2*val(x), M), x' valid;   residues: resid(x') == (-r | 2r) mod m
     'int_modadd2': {'file': 'int_modadd2.rs', 'w32': True},
+    # modular/mul.rs mul_normalized, sqr_normalized, mul_in_place, sqr_in_place (+ primitive::locate_top_word_plus_one):
+    #   stored: val(out) == ((A * B) >> shift) mod M < M, aligned;   residues: resid(out) == (ra * rb) mod m
+    'int_modmul': {'file': 'int_modmul.rs', 'w32': True},
 }
 
 PROP_UNITS = {
-    'C13': {'verus': ['int_modadd2'],
-            'undecided': ['negate_in_place: `raw.0.iter().all(|w| *w == 0)` is lowered by rule D15 to the verified helper '
+    'C13': {'verus': ['int_modadd2', 'int_modmul'],
+            'undecided': ['int_modmul ASSUMES (//@@ SIG, trusted contracts): mul::multiply and sqr::sqr return the exact product, '
+                          'div::div_rem_in_place returns lhs == q*rhs + r with r < rhs (proved for the schoolbook branch in unit '
+                          'int_div_ops); Memory::allocate_slice_fill, Box deref/eq (lib/mod2_mem.rs); cmp_same_len; the '
+                          'scratch-memory SIZING (mul_memory_requirement) is not verified',
+                          'negate_in_place: `raw.0.iter().all(|w| *w == 0)` is lowered by rule D15 to the verified helper '
                           '__slice_all_eq (meaning of slice::Iter::all trusted as for D1)']},
-    'C16': {'verus': ['int_modadd2']},
-    'C19': {'verus': ['int_modadd2']},
+    'C16': {'verus': ['int_modadd2', 'int_modmul']},
+    'C19': {'verus': ['int_modadd2', 'int_modmul']},
 }
